@@ -45,7 +45,14 @@ fn main() {
             let x = f64::from_bits(bits);
             vec![("shortest", format!("{:e}", x)), ("digits17", format!("{:.16e}", x)), ("exact", format!("{:.800e}", x))]
         };
+        // optional "only": "shortest" restricts the renderings (large families of short floats)
+        let only = r.get("only").and_then(|v| v.as_str()).map(|s| s.to_string());
         for (kind, s) in rend {
+            if let Some(o) = &only {
+                if o != kind {
+                    continue;
+                }
+            }
             let (i, f, e) = split_sci(&s);
             id += 1;
             out.line(&json!({"id": id, "fmt": fmt, "int": compress(&i, 48), "frac": compress(&f, 48), "exp": e,
